@@ -1,0 +1,72 @@
+//go:build verif
+
+package nilness
+
+// Contracts for the verification machinery in /verif (see /verif/DESIGN.md).
+// This file contains only comments; it is compiled to nothing.
+
+//@ prop C13, C15
+
+//@ ghost wfN(n Nilness) bool = 0 <= n && n <= 4
+//@ ghost wfV(v ValueNilness) bool = wfN(v.Inner) && wfN(v.Outer)
+
+// The merge is the table lookup per component; the table is read from the composite literal
+// in nilness.go on every run.
+//@ func (lattice).Merge
+//@   requires wfV(a) && wfV(b)
+//@   pure
+//@   ensures  [inner]  result.Inner == latticeMerge[a.Inner][b.Inner]
+//@   ensures  [outer]  result.Outer == latticeMerge[a.Outer][b.Outer]
+//@   ensures  [closed] wfV(result)
+//@ func (lattice).Equals
+//@   pure
+//@   ensures  result == (a == b)
+//@ func (lattice).Ident
+//@   pure
+//@   ensures  result.Inner == 0 && result.Outer == 0
+
+//@ prop C13
+// ---- semilattice laws over the full domain (C13) ----
+//@ lemma table_closed(x Nilness, y Nilness)
+//@   requires wfN(x) && wfN(y)
+//@   ensures  wfN(latticeMerge[x][y])
+//@ lemma table_comm(x Nilness, y Nilness)
+//@   requires wfN(x) && wfN(y)
+//@   ensures  latticeMerge[x][y] == latticeMerge[y][x]
+//@ lemma table_assoc(x Nilness, y Nilness, z Nilness)
+//@   requires wfN(x) && wfN(y) && wfN(z)
+//@   ensures  latticeMerge[x][latticeMerge[y][z]] == latticeMerge[latticeMerge[x][y]][z]
+//@ lemma table_idem(x Nilness)
+//@   requires wfN(x)
+//@   ensures  latticeMerge[x][x] == x
+//@ lemma table_ident(x Nilness)
+//@   requires wfN(x)
+//@   ensures  latticeMerge[x][0] == x && latticeMerge[0][x] == x
+// Merge(x, y) is the identity only if both are (needed by dfa.MapLattice.Merge)
+//@ lemma table_ident_only(x Nilness, y Nilness)
+//@   requires wfN(x) && wfN(y) && latticeMerge[x][y] == 0
+//@   ensures  x == 0 && y == 0
+
+//@ lemma merge_comm(a ValueNilness, b ValueNilness)
+//@   requires wfV(a) && wfV(b)
+//@   ensures  zero(lattice).Merge(a, b) == zero(lattice).Merge(b, a)
+//@ lemma merge_assoc(a ValueNilness, b ValueNilness, c ValueNilness)
+//@   requires wfV(a) && wfV(b) && wfV(c)
+//@   ensures  zero(lattice).Merge(a, zero(lattice).Merge(b, c)) == zero(lattice).Merge(zero(lattice).Merge(a, b), c)
+//@ lemma merge_idem(a ValueNilness)
+//@   requires wfV(a)
+//@   ensures  zero(lattice).Merge(a, a) == a
+//@ lemma merge_ident(a ValueNilness)
+//@   requires wfV(a)
+//@   ensures  zero(lattice).Merge(a, zero(lattice).Ident()) == a
+//@   ensures  zero(lattice).Equals(zero(lattice).Merge(a, zero(lattice).Ident()), a)
+
+//@ prop C15
+// ---- soundness of the join w.r.t. the concretisation (C15) ----
+// gam(n, c): the concrete nil-ness c (0 = nil, 1 = non-nil) is described by the abstract value n.
+// NeverNil describes non-nil, AlwaysNil describes nil, the two Maybe values describe both, the
+// identity 0 ("no information yet", unreachable) describes nothing.
+//@ ghost gam(n Nilness, c int) bool = n == NeverNil ? c == 1 : (n == AlwaysNil ? c == 0 : (n == MaybeNil || n == MaybeNilGlobal))
+//@ lemma gamma_join(x Nilness, y Nilness, c int)
+//@   requires wfN(x) && wfN(y) && (c == 0 || c == 1) && (gam(x, c) || gam(y, c))
+//@   ensures  gam(latticeMerge[x][y], c)
